@@ -148,6 +148,18 @@ func (p *parked) settle(t *tr.W) {
 	}
 }
 
+// call runs a synchronous API call of a scenario under the watchdog: a call that never returns is an observation,
+// not a stuck driver.  Returns false when it hung.
+func call(t *tr.W, label string, f func()) bool {
+	if _, ok := timed(f); !ok {
+		dump(label)
+		t.Op("call "+label, "HANG "+label)
+		t.Hit("call.hang")
+		return false
+	}
+	return true
+}
+
 func stopOp(t *tr.W, comp, moment, label string, stop func()) bool {
 	d, ok := timed(stop)
 	if !ok {
@@ -194,7 +206,11 @@ func scenSubMgr(t *tr.W, r *rand.Rand) {
 	m.Start()
 	var p parked
 	for i := 0; i < nsub; i++ {
-		sub, err := m.NewSubscription(1)
+		var sub *blockntfns.Subscription
+		var err error
+		if !call(t, "SubscriptionManager.NewSubscription", func() { sub, err = m.NewSubscription(1) }) {
+			return
+		}
 		if err != nil {
 			t.Op("subscribe", "err")
 			continue
@@ -276,7 +292,9 @@ func scenBroadcaster(t *tr.W, r *rand.Rand, markAfterStop bool) {
 	var p parked
 	if moment != "mid-broadcast" {
 		for i := 0; i < ntx; i++ {
-			_ = b.Broadcast(mkTx(i))
+			if !call(t, "Broadcaster.Broadcast", func() { _ = b.Broadcast(mkTx(i)) }) {
+				return
+			}
 		}
 	}
 	switch moment {
@@ -338,7 +356,13 @@ func scenScanner(t *tr.W, r *rand.Rand) {
 	_ = s.Start()
 	var p parked
 	enqueue := func(i int) {
-		req, err := s.Enqueue(&neutrino.InputWithScript{OutPoint: wire.OutPoint{Index: uint32(i)}, PkScript: []byte{0x51}}, 0, nil)
+		var req *neutrino.GetUtxoRequest
+		var err error
+		if !call(t, "UtxoScanner.Enqueue", func() {
+			req, err = s.Enqueue(&neutrino.InputWithScript{OutPoint: wire.OutPoint{Index: uint32(i)}, PkScript: []byte{0x51}}, 0, nil)
+		}) {
+			return
+		}
 		if err != nil {
 			t.Hit("scanner.enqueue.refused")
 			return
